@@ -1,4 +1,4 @@
-// verif:properties C10 C09 C04 C17
+// verif:properties C10 C09 C04 C17 C02
 package uhppote
 
 import (
@@ -102,8 +102,13 @@ func c10SameStatus(a, b *types.Status) bool {
 		x.CardNumber == y.CardNumber && x.Reason == y.Reason && x.Timestamp == y.Timestamp && a.SystemDateTime == b.SystemDateTime
 }
 
+var c10Lazy bool
+
 func c10Listen(k int) {
 	verifZone(1)
+	if c10Lazy {
+		verifLazySpawn() // goroutines start when the thread that started them blocks: quit is seen first
+	}
 	var dgs [][]byte
 	for i := 0; i < k; i++ {
 		dgs = append(dgs, nondetBuffer(keyTag("dg", i), 2048))
@@ -145,6 +150,13 @@ func VerifC10_Listen1()   { c10Listen(1) }
 func VerifC10_Listen2()   { c10Listen(2) }
 func VerifC10_T_Listen3() { c10Listen(3) }
 
+// the same under the lazy-start schedule: the quit signal is already there when the receive loop starts
+func VerifC10_ListenLazy2() {
+	c10Lazy = true
+	defer func() { c10Lazy = false }()
+	c10Listen(2)
+}
+
 // a driver that cannot listen: the error is passed on, nothing is delivered, no goroutine stays behind
 func VerifC10_ListenFails() {
 	d := &vDriver{lstErr: errVerifNoReply}
@@ -160,3 +172,7 @@ func VerifC10_ListenFails() {
 
 // C09: a Listen that fails leaves no goroutine behind
 func VerifC09_ListenFailureReleasesGoroutines() { VerifC10_ListenFails() }
+
+// C02: an event delivered by the listener is a reply like any other - every field of the delivered status is
+// the protocol decoding of the datagram (0x17 and v6.62 0x19 alike), out-of-domain fields make it an error
+func VerifC02_ListenEvent() { c10Listen(1) }
